@@ -55,7 +55,9 @@ RULE_ADDED = (
               'se / padded / doubled. '
               ' '
               'Round 17: a certifier, re-signed by its own certifier, embedding another key wit'
-              'h the same x as the one its children were signed with. ')
+              'h the same x as the one its children were signed with. '
+              ' '
+              'Round 18: tweaks whose derived scalar begins with a zero byte (ground). ')
 RULE = RULE + " " + RULE_ADDED.strip()
 ASSUMPTIONS = [
     "oracle: pv/oracle/certv1.py (own secp256k1 arithmetic, ECDSA by cryptography/OpenSSL); "
